@@ -6,6 +6,7 @@ import Driver.Sexp
 import BorshModel.Spec
 import BorshModel.SchemaOf
 import BorshModel.Io
+import BorshModel.IoOps
 open Borsh Driver
 
 def strict? : Sx → Option Bool
@@ -84,6 +85,26 @@ def showUnit (o : Out Unit) : String :=
   | .err e => showErr e
   | .panic p => "panic " ++ showPanic p
 
+def ioOp? : Sx → Option IoOp
+  | .list [.atom "read", .atom n] => n.toNat?.map .read
+  | .list [.atom "rex", .atom n] => n.toNat?.map .readExact
+  | .list [.atom "w", .atom b] => (parseHex b).map .write
+  | .list [.atom "wa", .atom b] => (parseHex b).map .writeAll
+  | .atom "fl" => some .flush
+  | _ => none
+
+def ioOps? : Sx → Option (List IoOp)
+  | .list (.atom "ops" :: xs) => xs.mapM ioOp?
+  | _ => none
+
+def showIoObs : IoObs → String
+  | .got bs => "(got " ++ hexOf bs ++ ")"
+  | .count n => "(n " ++ toString n ++ ")"
+  | .unit => "unit"
+  | .failed e => "(" ++ showErr e ++ ")"
+
+def showObsList (xs : List IoObs) : String := "(" ++ " ".intercalate (xs.map showIoObs) ++ ")"
+
 def runCase (xs : List Sx) : String :=
   match xs with
   | [.atom "enc", t, v] =>
@@ -154,6 +175,28 @@ def runCase (xs : List Sx) : String :=
     | some t, some v =>
       if !HasTy t v then "bad-case ill-typed" else showOut toString (objectLength t v)
     | _, _ => "bad-case parse"
+  | [.atom "ioR", .atom io, b, ops] =>
+    match bytes? b, ioOps? ops with
+    | some bs, some ops =>
+      let r := if io == "std" then Std.readerOps ops bs else NoStd.readerOps ops bs
+      let failed := match r.1.getLast? with
+        | some (.failed _) => true
+        | _ => false
+      -- the position after a failed read_exact is unspecified by std::io
+      showObsList r.1 ++ " rest=" ++ (if failed then "*" else hexOf r.2)
+    | _, _ => "bad-case parse"
+  | [.atom "ioW", .atom io, .atom cap, ops] =>
+    match cap.toNat?, ioOps? ops with
+    | some cap, some ops =>
+      let r := if io == "std" then Std.sliceWriterOps ops ([], cap) else NoStd.sliceWriterOps ops ([], cap)
+      showObsList r.1 ++ " written=" ++ hexOf r.2.1 ++ " room=" ++ toString r.2.2
+    | _, _ => "bad-case parse"
+  | [.atom "ioV", .atom io, ops] =>
+    match ioOps? ops with
+    | some ops =>
+      let r := if io == "std" then Std.vecWriterOps ops [] else NoStd.vecWriterOps ops []
+      showObsList r.1 ++ " written=" ++ hexOf r.2
+    | none => "bad-case parse"
   | [.atom "cont", st, b] =>
     match strict? st, bytes? b with
     | some st, some bs =>
